@@ -609,6 +609,9 @@ pub fn execute_c05(plan: &Plan) -> Outcome {
             add_stats(&mut stats, &lr.stats);
             *probes.entry("cross_connection_splices".to_owned()).or_insert(0) += 1;
             panics.extend(lr.panics.clone());
+            if std::env::var_os("VERIF_DEBUG_SPLICE").is_some() {
+                eprintln!("splice {cell} {dir} {what}: flows {} startup {:?} f0 app {} target {} | f1 hs_err {:?} app {} target {} s2c conns {:?}", lr.run.flows.len(), lr.run.startup_err, lr.run.flows[0].app.recv.len(), lr.run.flows[0].target.recv.len(), lr.run.flows.get(1).and_then(|o| o.hs_err.clone()), lr.run.flows.get(1).map(|o| o.app.recv.len()).unwrap_or(0), lr.run.flows.get(1).map(|o| o.target.recv.len()).unwrap_or(0), lr.stream_len);
+            }
             if let Some(o1) = lr.run.flows.get(1) {
                 let got = if dir == "c2s" { &o1.target.recv } else { &o1.app.recv };
                 let want1 = if dir == "c2s" { expected_up(&two.flows[1], 1) } else { expected_down(&two.flows[1], 1) };
